@@ -88,9 +88,9 @@ META = {
             "cadence lines i<k> drive the real disk.Informer (k-th RepoStat fails), the real loop and the real PublishMetric (late=0 on today's tree, late=1 before the repair), "
             "and the driver compares every informer cadence line with the nominal schedule of the regenerated body; "
             "round 8 final: ONE history over the receive path, the store, the clock, the checker and the channel (namespace Hist: payloads decoded, malformed / other names ignored, latest per peer with its expiry instant, "
-            "clock advances, CheckPeers with any lists deciding expiry at the clock of the check, alert with today's count-after-send order, drains of any size): theorem history_reported_once_holds for every such history and capacity "
-            "— no alert is enqueued twice, only reported metrics are forgotten (forgotten => enqueued exactly once, before), every enqueued alert names the peer's latest metric at a check that visited it with its expiry instant passed — "
-            "plus the liveness step history_expired_visited_enqueued (expired + room => enqueued); the join with the multi-name model (windows, accrual oracle, peerset, removals) is still missing (notes, Round 8 final).",
+            "clock advances, peerset changes and Watch ticks (CheckPeers(peerset), round skipped when the peerset function fails), CheckPeers with any lists deciding expiry at the clock of the check, alert with today's count-after-send order, drains of any size): theorem history_reported_once_holds for every such history and capacity "
+            "— no alert is enqueued twice, only reported metrics are forgotten (forgotten => enqueued exactly once, before), every enqueued alert names the peer's latest metric at a check / tick whose list (the peerset of that tick) names the peer, with its expiry instant passed — "
+            "plus the liveness step history_expired_visited_enqueued (expired + room => enqueued); the join with the multi-name model (windows, accrual oracle, CheckAll, removals, the query-side peerset filter) is still missing (notes, Round 8 final).",
     "note": "Trusted: Lean kernel (+propext, Classical.choice, Quot.sound), the hand-written model/spec, the Go harness. The phi float arithmetic is an oracle.",
     "technique": "Lean 4 invariants over histories + differential correspondence with the real monitor code",
 }
